@@ -28,6 +28,8 @@ class Fault:
                  followup=None):
         self.followup = followup    # a valid declaration that must still
         #                             be possible after the rejection
+        self.probes = []            # expressions evaluated before and after
+        #                             the attempt; results must be identical
         self.cls = cls
         self.steps_fn = steps_fn
         self.new_syms = list(new_syms)
@@ -35,10 +37,28 @@ class Fault:
         self.desc = desc
 
     def steps(self, key):
-        return self.steps_fn(key)
+        before = [{"k": "%s.pb%d" % (key, i), "e": e}
+                  for i, e in enumerate(self.probes)]
+        after = [{"k": "%s.pa%d" % (key, i), "e": e}
+                 for i, e in enumerate(self.probes)]
+        return before + self.steps_fn(key) + after
 
 
 def make_fault(rng, w: World, cls, fresh):
+    f = _make_fault(rng, w, cls, fresh)
+    if f is not None and len(w.units) >= 2:
+        # "every subsequent result is the same": a few unit-level and
+        # quantity-level operations around the attempt
+        syms = list(w.units)
+        for _ in range(3):
+            a, b = rng.choice(syms), rng.choice(syms)
+            op = rng.choice("*/")
+            f.probes.append(OP(op, U(a), U(b)))
+            f.probes.append(OP(op, Q(["i", 6], a), Q(["i", 4], b)))
+    return f
+
+
+def _make_fault(rng, w: World, cls, fresh):
     """Build a fault of class cls against the current model state; returns
     None if the state offers no opportunity.  `fresh()` yields an unused
     symbol / name."""
@@ -50,7 +70,7 @@ def make_fault(rng, w: World, cls, fresh):
         cands = [t for t in derived
                  if cls == "dup-dimension" or len(t.defn) >= 2]
         if cls == "dup-dimension-explicit-symbol":
-            cands = [t for t in derived if t.has_ref]
+            cands = list(derived)
         if not cands:
             return None
         t = rng.choice(cands)
@@ -80,6 +100,23 @@ def make_fault(rng, w: World, cls, fresh):
         if not w.units or not types:
             return None
         sym = rng.choice(list(w.units))
+        two = [t for t in derived if len(t.defn) == 2 and
+               t.defn[0][1] == 1 and t.defn[1][1] in (1, -1) and
+               all(w.units_of(n) for n, _ in t.defn)]
+        if two and rng.random() < 0.5:
+            # a definition from two existing units; its product / quotient
+            # is evaluated before and after the rejected attempt
+            t = rng.choice(two)
+            u1 = rng.choice([u.sym for u in w.units_of(t.defn[0][0])])
+            u2 = rng.choice([u.sym for u in w.units_of(t.defn[1][0])])
+            d = Decl("derive", t=t.name, sym=sym, units=[u1, u2])
+            f = Fault(cls, lambda k: [{"k": k, "e": d.expr()}],
+                      desc="%s.derive_unit_from(%s, %s, symbol=%r (taken))" %
+                      (t.name, u1, u2, sym))
+            op = "*" if t.defn[1][1] == 1 else "/"
+            f.probes = [OP(op, U(u1), U(u2)),
+                        OP(op, Q(["i", 36], u1), Q(["i", 2], u2))]
+            return f
         t = rng.choice(types)
         if t.has_ref:
             e = M(V(t.name), "new_unit", ["s", sym], ["s", "dup"],
